@@ -237,7 +237,50 @@ def run_spec(pid, name, tier, rnd, stats, samples):
     return violations
 
 
+UPDATE_SCENARIOS = {
+    # name: (base spec, override spec that only redefines existing symbols)
+    "update_redefines_digit": ('<start> ::= <id> "=" <num>\n<id> ::= "a" | "b"\n<num> ::= <d>{1,2}\n<d> ::= "0" | "1"\n', '<d> ::= "7" | "8"\n'),
+    "update_redefines_start": ('<start> ::= <a> <a>\n<a> ::= "x" | "y"\n', '<start> ::= <a> "-" <a>\n'),
+}
+
+
+def check_update_scenario(name, stats):
+    """C04 over histories of the grammar object: after Grammar.update() every parse result must be a derivation of the
+    grammar AS IT IS NOW, and words that are no longer in the language must be rejected"""
+    from fandango.language.parse.parse import parse
+    base, override = UPDATE_SCENARIOS[name]
+    g, _ = parse(base, use_stdlib=False, use_cache=False)
+    old_words = words_of(g, name)
+    for w in list(old_words)[:5]:
+        list(g.parse_forest(w))                      # use the parser before the update
+    other, _ = parse(override, use_stdlib=False, use_cache=False, check=False)
+    g.update(other)
+    new_words = words_of(g, name)
+    problems = []
+    for w in sorted(set(old_words) | set(new_words), key=repr):
+        stats["evaluations"] += 1
+        stats["distinct"].add((name, repr(w)))
+        res, to = with_budget(lambda: list(g.parse_forest(w)))
+        if to:
+            continue
+        # (completeness after an update is not this property's subject; soundness is)
+        if w not in new_words and res:
+            problems.append((w, "after Grammar.update(): a word outside the current language is parsed"))
+        for t in res:
+            ok, why = valid(g, t)
+            if not ok:
+                problems.append((w, f"after Grammar.update(): yielded tree is not a derivation of the current rules: {why}"))
+    return problems
+
+
 def replay(pid, name, word):
+    if name in UPDATE_SCENARIOS:
+        stats = {"evaluations": 0, "distinct": set(), "trees": 0, "timeouts": 0}
+        probs = check_update_scenario(name, stats)
+        for w, p in probs[:5]:
+            print("VIOLATION reproduced:", name, repr(w), p)
+        print("base:\n" + UPDATE_SCENARIOS[name][0] + "override:\n" + UPDATE_SCENARIOS[name][1])
+        return 1 if probs else 0
     stats = {"evaluations": 0, "distinct": set(), "trees": 0, "timeouts": 0}
     grammar, _ = family.load(name)
     if pid == "C04":
@@ -267,6 +310,14 @@ def run(tier="quick", seed=0, pid="C04"):
         except Exception as e:
             return {"evaluations": stats["evaluations"], "distinct_nontrivial": len(stats["distinct"]), "rule": "", "samples": samples,
                     "violations": [], "undecided": [f"harness error on spec {name}: {type(e).__name__}: {e}"]}
+    if pid == "C04":
+        for name in UPDATE_SCENARIOS:
+            try:
+                for w, p in check_update_scenario(name, stats):
+                    found.append((name, w, p))
+            except Exception as e:
+                return {"evaluations": stats["evaluations"], "distinct_nontrivial": len(stats["distinct"]), "rule": "", "samples": samples,
+                        "violations": [], "undecided": [f"update scenario {name}: {type(e).__name__}: {e}"]}
     violations = []
     seen = set()
     for name, word, p in found:
@@ -278,7 +329,8 @@ def run(tier="quick", seed=0, pid="C04"):
         oblig = f"bounded:{'parse_sound' if pid == 'C04' else 'roundtrip'}:{name}"
         kind = ("validate_raises" if "validate()" in p else "language_word_rejected" if "language is rejected" in p
                 else "generated_word_not_parsed_back" if "not parsed back" in p else "not_a_derivation" if "not a derivation" in p
-                else "serialisation_differs" if "differs from the input" in p else "constraint_violated" if "violating" in p else "other")
+                else "serialisation_differs" if "differs from the input" in p else "constraint_violated" if "violating" in p
+                else "stale_after_update" if "Grammar.update" in p else "other")
         # the witness names the spec and the kind of failure (the concrete word depends on VERIF_SEED and is in the replay)
         violations.append({"name": oblig, "witness": f"spec={name};kind={kind}", "detail": f"{p} (input {word!r})",
                            "script": script_for(pid, name, word, p)})
